@@ -70,11 +70,12 @@ func (ex *Exec) loopHead(fr *Frame, b *ssa.BasicBlock, ord int, pred *ssa.BasicB
 		dec = c.LoopDec[ord]
 	}
 	pkg := fr.fn.Pkg.Pkg
-	evalInvs := func(s *State) []string {
+	evalInvs := func(s *State, goal bool) []string {
 		var out []string
 		for _, inv := range invs {
 			env := ex.newEnv(s, vc.entryFor(fr), pkg, fr)
 			env.useCells = true
+			env.goal = goal
 			ex.bindParams(env, fr)
 			f := env.Bool(inv.Expr)
 			if len(env.errs) > 0 {
@@ -98,7 +99,7 @@ func (ex *Exec) loopHead(fr *Frame, b *ssa.BasicBlock, ord int, pred *ssa.BasicB
 	}
 	if le, active := st.loopIn[key]; active {
 		// back edge
-		fs := evalInvs(st)
+		fs := evalInvs(st, true)
 		for i, f := range fs {
 			ex.obligationFull(fr, st, "inv-preserved", invs[i].Text, f, false, fmt.Sprintf("loop%d.%d", ord, invs[i].Ordinal), false)
 		}
@@ -113,7 +114,7 @@ func (ex *Exec) loopHead(fr *Frame, b *ssa.BasicBlock, ord int, pred *ssa.BasicB
 		return false
 	}
 	// entry
-	fs := evalInvs(st)
+	fs := evalInvs(st, true)
 	for i, f := range fs {
 		ex.obligationFull(fr, st, "inv-entry", invs[i].Text, f, false, fmt.Sprintf("loop%d.%d", ord, invs[i].Ordinal), false)
 	}
@@ -154,7 +155,7 @@ func (ex *Exec) loopHead(fr *Frame, b *ssa.BasicBlock, ord int, pred *ssa.BasicB
 		outer.add(ws)
 	}
 	st.note("loop %d of %s: cut (havoc %d cells, %d heap components)", ord, fr.fn.Name(), len(ws.cells), len(ws.heaps))
-	for _, f := range evalInvs(st) {
+	for _, f := range evalInvs(st, false) {
 		st.assume(f)
 	}
 	le := &loopEntry{}
@@ -210,15 +211,10 @@ func (ex *Exec) bindParams(env *Env, fr *Frame) {
 	for i, p := range fr.fn.Params {
 		if i < len(fr.params) {
 			v := fr.params[i]
-			if env.useCells {
-				if c := env.st.cellByName(p.Name()); c != nil {
-					continue
-				}
-			}
 			if v.K == VTerm {
-				env.binds[p.Name()] = TVal{T: v.T, Ty: p.Type()}
+				env.params[p.Name()] = TVal{T: v.T, Ty: p.Type()}
 			} else if v.K == VPtr {
-				env.binds[p.Name()] = TVal{T: ex.materialize(env.st, v.P), Ty: p.Type()}
+				env.params[p.Name()] = TVal{T: ex.materialize(env.st, v.P), Ty: p.Type()}
 			}
 		}
 	}
